@@ -1,2 +1,4 @@
 import NetqasmVerif.Model.Basic
 import NetqasmVerif.Model.Codec
+import NetqasmVerif.Model.Transpile
+import NetqasmVerif.Props.C08
